@@ -64,6 +64,21 @@ type ccNull bool
 type ccAutoincrement bool
 type ccCollate string
 type ccDefault interface{}
+
+// defaultLiteral is the value of `DEFAULT <literal>`. The bare words TRUE and
+// FALSE are booleans (SQLite 3.23 and later: the integers 1 and 0); quoted they
+// are text.
+func defaultLiteral(s string, bare bool) ccDefault {
+	if bare {
+		switch upperASCII(s) {
+		case "TRUE":
+			return ccDefault(true)
+		case "FALSE":
+			return ccDefault(false)
+		}
+	}
+	return ccDefault(s)
+}
 type ccReferences ForeignKeyClause
 type ccCheck struct {
 	expr Expression
